@@ -62,7 +62,11 @@ func VP_C12_Server() {
 			cmd = vp.Byte("cmd")
 		}
 		first = append(first, cmd, 'a', 'a', 'a', '0', '0')
-		if vp.Param("optprefix") == 1 {
+		if fc := vp.Param("fragconc"); fc > 0 {
+			// set-options naming the concrete downstream fragment size fc-1 (every other option left alone)
+			f := uint32(fc - 1)
+			first = append(first, enc.Base32Encoding.Encode([]byte{0xff, 0xff, 0xff, ' ', ' ', byte(f), byte(f >> 8), byte(f >> 16), byte(f >> 24)})...)
+		} else if vp.Param("optprefix") == 1 {
 			// set-options body whose first five bytes say "leave lazy/multi/closed and both codecs alone"
 			first = append(first, enc.Base32Encoding.Encode([]byte{0xff, 0xff, 0xff, ' ', ' '})...)
 		}
